@@ -18,7 +18,7 @@ PROP_MODULES = {
     "C11": ["contracts.c11", "contracts.c11_bounded", "contracts.c02"],
     "C19": ["contracts.c19", "contracts.c19_bounded", "contracts.c02", "contracts.c15"],
     "C12": ["contracts.c12", "contracts.c12b", "contracts.c12_bounded", "contracts.c10"],
-    "C13": ["contracts.c13", "contracts.c13b", "contracts.c13_bounded", "contracts.c11"],
+    "C13": ["contracts.c13", "contracts.c13b", "contracts.c13_bounded", "contracts.c11", "contracts.c12"],
     "C14": ["contracts.c14", "contracts.c14_bounded", "contracts.c08", "contracts.c17", "contracts.c13"],
     "C06": ["contracts.c06", "contracts.c06_bounded"],
     "C07": ["contracts.c07", "contracts.c07_bounded", "contracts.c10", "contracts.c03"],
